@@ -14,6 +14,7 @@ import (
 	"github.com/btcsuite/btcd/chaincfg/v2"
 	"github.com/btcsuite/btcd/chainhash/v2"
 	"github.com/btcsuite/btcd/mempool"
+	"github.com/btcsuite/btcd/mining"
 	"github.com/btcsuite/btcd/txscript/v2"
 	"github.com/btcsuite/btcd/wire/v2"
 	"verifharness/core"
@@ -34,6 +35,7 @@ func (P) Facts() []core.Fact {
 		core.Fact{Name: "maxTxInSequenceNum", Value: int64(wire.MaxTxInSequenceNum)},
 		core.Fact{Name: "defaultMinRelayTxFee", Value: int64(mempool.DefaultMinRelayTxFee)},
 		core.Fact{Name: "regtestGenesisTime", Value: genesisTime},
+		core.Fact{Name: "minHighPriority", Value: int64(mining.MinHighPriority)},
 		core.Fact{Name: "mainCoinbaseMaturity", Value: int64(chaincfg.MainNetParams.CoinbaseMaturity)},
 	)
 	return fs
@@ -391,7 +393,7 @@ func (s *sim) newTx(o txOpts) *txDef {
 		case 2:
 			seq = uint32(s.r.Pick(0xffffffff, 0xfffffffe, 0xfffffffd))
 		}
-		d.ins = append(d.ins, inDef{c.txid, c.idx, seq, 'g'})
+		d.ins = append(d.ins, inDef{c.txid, c.idx, seq, 'g', 0})
 		total += c.value
 		conflicts = append(conflicts, s.spentBy[k]...)
 	}
@@ -403,7 +405,7 @@ func (s *sim) newTx(o txOpts) *txDef {
 		g := s.nextID
 		s.nextID++
 		d.id = s.nextID
-		d.ins = append(d.ins, inDef{g, 0, 0xffffffff, 'g'})
+		d.ins = append(d.ins, inDef{g, 0, 0xffffffff, 'g', 0})
 		known = false
 	case "badidx":
 		d.ins[0].idx += 7
@@ -413,7 +415,7 @@ func (s *sim) newTx(o txOpts) *txDef {
 	case "badscript":
 		d.ins[0].kind = 'b'
 	case "coinbase":
-		d.ins = []inDef{{0, 0xffffffff, 0xffffffff, 'g'}}
+		d.ins = []inDef{{0, 0xffffffff, 0xffffffff, 'g', 0}}
 		known = false
 	case "ver3":
 		d.ver = 3
@@ -444,7 +446,7 @@ func (s *sim) newTx(o txOpts) *txDef {
 		k := int(s.r.Pick(0, 1, 2))
 		for _, o := range s.unspentOuts(false) {
 			if o.kind == 't' { // a bare OP_TRUE output is spent with an empty script: two bytes less
-				d.ins[0] = inDef{o.txid, o.idx, 0xffffffff, 'g'}
+				d.ins[0] = inDef{o.txid, o.idx, 0xffffffff, 'g', 0}
 				total = o.value
 				k = int(s.r.Pick(2, 3, 4))
 				break
@@ -578,6 +580,7 @@ func (s *sim) newTx(o txOpts) *txDef {
 	}
 	s.seenHash[*d.tx.Hash()] = true
 	d.fee, d.vsize, d.ssize, d.size, d.bits = s.u.facts(d, 2, s.pol.minRelayFee)
+	s.u.setPrioFacts(d)
 	s.nextID = d.id + 1
 	s.defs = append(s.defs, d)
 	s.defGrp[d.id] = s.grp
@@ -674,7 +677,7 @@ func (s *sim) replacementOf(d *txDef, fee int64) *txDef {
 	n := &txDef{id: s.nextID, lock: "0", ver: 1}
 	var total int64
 	for _, in := range d.ins {
-		n.ins = append(n.ins, inDef{in.txid, in.idx, 0xffffffff, 'g'})
+		n.ins = append(n.ins, inDef{in.txid, in.idx, 0xffffffff, 'g', 0})
 		v, _, _ := s.u.outInfo(in.txid, in.idx)
 		total += v
 	}
@@ -683,6 +686,7 @@ func (s *sim) replacementOf(d *txDef, fee int64) *txDef {
 	s.u.build(n)
 	s.seenHash[*n.tx.Hash()] = true
 	n.fee, n.vsize, n.ssize, n.size, n.bits = s.u.facts(n, 2, s.pol.minRelayFee)
+	s.u.setPrioFacts(n)
 	s.nextID++
 	s.defs = append(s.defs, n)
 	s.defGrp[n.id] = s.grp
@@ -704,12 +708,12 @@ func (s *sim) txFrom(ins [][2]int, ghost bool, nOut int, fee int64) *txDef {
 			return nil
 		}
 		total += v
-		d.ins = append(d.ins, inDef{in[0], in[1], 0xffffffff, 'g'})
+		d.ins = append(d.ins, inDef{in[0], in[1], 0xffffffff, 'g', 0})
 	}
 	if ghost {
 		g := s.nextID
 		s.nextID++
-		d.ins = append(d.ins, inDef{g, 0, 0xffffffff, 'g'})
+		d.ins = append(d.ins, inDef{g, 0, 0xffffffff, 'g', 0})
 	}
 	d.id = s.nextID
 	rest := total - fee
@@ -728,6 +732,7 @@ func (s *sim) txFrom(ins [][2]int, ghost bool, nOut int, fee int64) *txDef {
 	}
 	s.seenHash[*d.tx.Hash()] = true
 	d.fee, d.vsize, d.ssize, d.size, d.bits = s.u.facts(d, 2, s.pol.minRelayFee)
+	s.u.setPrioFacts(d)
 	s.nextID = d.id + 1
 	s.defs = append(s.defs, d)
 	s.defGrp[d.id] = s.grp
@@ -820,6 +825,7 @@ func (s *sim) orphanDoubleSpends() {
 				s.u.build(d)
 				s.seenHash[*d.tx.Hash()] = true
 				d.fee, d.vsize, d.ssize, d.size, d.bits = s.u.facts(d, 2, s.pol.minRelayFee)
+				s.u.setPrioFacts(d)
 				rivals = append(rivals, d)
 			}
 		}
@@ -993,7 +999,7 @@ func randomPolicy(r *core.Rand) policy {
 		maxOrphans:        int(r.Pick(0, 1, 2, 5, 100, 100)),
 		maxOrphanSize:     int(r.Pick(117, 149, 160, 192, 100000, 100000)),
 		minRelayFee:       r.Pick(0, 1000, 1000, 1000, 5000),
-		disablePriority:   true,
+		disablePriority:   r.Chance(55, 100),
 		freeRelay:         r.Bool(),
 	}
 }
